@@ -532,6 +532,29 @@ theorem C19_tap3_validated_never_raises (c : Cfg) (d0 : Int) (k : Nat) (s0 : St)
   obtain ⟨⟨hn, hdd⟩, ho⟩ := run_nr c ins s0 0 (Int.le_refl 0) hwf hd (nr_init c d0 k s0 h0)
   exact ⟨ho, hdd, hn.err, hn⟩
 
+/-- **Liveness of the schedule of a validated TAP003 without the escape clause.**  `C19_tap3_next_slot` (round 6) said "the
+agent reaches its next execution slot — unless a pre-guard response handler raises on the way".  With well-formed
+responses nothing raises: after ANY prefix of a run from the constructor, an agent that has not concluded is alive and
+gets past its schedule guard exactly `max now next_execution_timestep − now` ticks later. -/
+theorem C19_tap3_validated_next_slot (c : Cfg) (d0 : Int) (k : Nat) (s0 : St) (h0 : init c d0 k = some s0) (pre w : List In)
+    (hpre : ∀ i ∈ pre, i.resp.wf) (hw : ∀ i ∈ w, i.resp.wf) (hc : (after c s0 0 pre).concluded = false)
+    (hlen : (w.length : Int) = max (pre.length : Int) (after c s0 0 pre).nextExec - pre.length) :
+    (after c s0 0 (pre ++ w)).dead = false ∧ (after c s0 0 (pre ++ w)).concluded = false ∧
+    executes (after c s0 0 (pre ++ w)) (pre.length + w.length) = true := by
+  have hd0 : s0.dead = false := by
+    unfold init at h0; split at h0
+    · cases h0; rfl
+    · cases h0
+  obtain ⟨⟨hn1, hd1⟩, _⟩ := run_nr c pre s0 0 (Int.le_refl 0) hpre hd0 (nr_init c d0 k s0 h0)
+  obtain ⟨⟨_, hd2⟩, _⟩ := run_nr c w (after c s0 0 pre) (0 + pre.length) (by omega) hw hd1 hn1
+  rw [after_append]
+  have hslot := C19_tap3_next_slot c w (after c s0 0 pre) (0 + pre.length) hd1 hc (by omega)
+  rcases hslot with hdead | ⟨h1, _, h3⟩
+  · rw [hd2] at hdead; cases hdead
+  · refine ⟨hd2, h1, ?_⟩
+    have e : (0 : Int) + pre.length + w.length = pre.length + w.length := by omega
+    rw [e] at h3; exact h3
+
 /-! non-vacuity -/
 
 /-- The hypotheses are satisfiable by a non-trivial configuration (a local and a remote account change, one ACL): the
